@@ -520,10 +520,14 @@ func isMixedKind(k byte) bool {
 }
 
 // one grouping query with its table and output mode
-func genGroupCase(g *Gen) string {
+func genGroupCase(g *Gen, thorough bool) string {
 	fileFmt := Pick(g, []string{"csv", "csv", "json"})
 	mixed := g.Chance(1, 4)
-	t := genGTable(g, fileFmt, mixed, g.Chance(1, 5), 10)
+	maxRows := 10
+	if thorough && g.Chance(1, 3) {
+		maxRows = 30 // larger groups, longer aggregate histories
+	}
+	t := genGTable(g, fileFmt, mixed, g.Chance(1, 5), maxRows)
 	file := "t." + fileFmt
 	trigger := ""
 	switch g.Intn(10) {
@@ -566,7 +570,7 @@ func genGroupCase(g *Gen) string {
 		// a changelog reaches the sink: only the table printers consolidate it
 		if hasKind(q.cols, isMixedKind) || hasKind(q.cols, isListKind) {
 			// the table printers cannot be read back for these columns: draw another case
-			return genGroupCase(g)
+			return genGroupCase(g, thorough)
 		}
 		modes = []string{"batch_table", "live_table"}
 	}
@@ -628,10 +632,10 @@ func genC03(g *Gen, tier string, w *bufio.Writer) {
 	}
 	n := 1100
 	if tier == "thorough" {
-		n = 14000
+		n = 12000
 	}
 	for i := 0; i < n; i++ {
-		fmt.Fprintln(w, genGroupCase(g))
+		fmt.Fprintln(w, genGroupCase(g, tier == "thorough"))
 	}
 }
 
